@@ -339,4 +339,173 @@ theorem annot_flat (c : Cfg) (n : Nat) : annot c ((flat (run c n init).trace).ma
 theorem annot_flat_final (c : Cfg) : annot c ((flat (final c).trace).map Obs.raw) = flat (final c).trace := by
   rw [show (final c).trace = (run c fuel init).trace from rfl]; exact annot_flat c fuel
 
+/-! ### the model never leaves the modelled fragment -/
+
+def isUnm : Ev → Bool
+  | .unmodelled _ => true
+  | _ => false
+
+/-- the step appended no `unmodelled` marker and did not block -/
+def Clean (s r : St) : Prop :=
+  (∃ evs, r.trace = s.trace ++ evs ∧ ∀ e ∈ evs, isUnm e = false) ∧ r.blocked = s.blocked
+
+theorem afterPE_blocked (c : Cfg) (g : St) : (afterPE c g).trace = g.trace ∧ (afterPE c g).blocked = g.blocked := by
+  have hret : ∀ (x : St) (p : Nat), (ret x p).blocked = x.blocked := by
+    intro x p; unfold ret; split <;> (try split) <;> rfl
+  by_cases hc : g.cleaned = true
+  · rw [afterPE_cleaned c g hc]; exact ⟨ret_trace _ _, hret _ _⟩
+  · have hc : g.cleaned = false := by simpa using hc
+    by_cases hr : g.upstreamReset = true
+    · rw [afterPE_reset c g hc hr]
+      split
+      · exact ⟨ret_trace _ _, hret _ _⟩
+      · split <;> exact ⟨by rw [ret_trace]; rfl, by rw [hret]; rfl⟩
+    · have hr : g.upstreamReset = false := by simpa using hr
+      by_cases hd : g.direct = true
+      · rw [afterPE_direct c g hc hr hd]
+        split
+        · exact ⟨by rw [ret_trace]; rfl, by rw [hret]; rfl⟩
+        · split
+          · exact ⟨by rw [ret_trace]; rfl, by rw [hret]; rfl⟩
+          · exact ⟨rfl, rfl⟩
+      · have hd : g.direct = false := by simpa using hd
+        rw [afterPE_plain c g hc hr hd]
+        split
+        · exact ⟨by rw [ret_trace], by rw [hret]⟩
+        · split
+          · exact ⟨ret_trace _ _, hret _ _⟩
+          · exact ⟨rfl, rfl⟩
+
+theorem Clean.via (c : Cfg) {s g : St} (h : Clean s g) : Clean s (afterPE c g) := by
+  obtain ⟨h1, h2⟩ := afterPE_blocked c g
+  exact ⟨by rw [h1]; exact h.1, by rw [h2]; exact h.2⟩
+
+theorem Clean.same {s g : St} (ht : g.trace = s.trace) (hb : g.blocked = s.blocked) : Clean s g :=
+  ⟨⟨[], by simp [ht], by simp⟩, hb⟩
+
+theorem Clean.emit1 {s g : St} (e : Ev) (ht : g.trace = s.trace ++ [e]) (h1 : isUnm e = false) (hb : g.blocked = s.blocked) :
+    Clean s g := ⟨⟨[e], ht, by simp [h1]⟩, hb⟩
+
+/-- from a state satisfying the phase invariant, a `case` never takes one of the model's escape branches -/
+theorem phaseCase_clean (c : Cfg) (s : St) (hd : PhaseData c s.view s.phase) : Clean s (phaseCase c s) := by
+  have same : Clean s s := Clean.same rfl rfl
+  have stay : ∀ n, Clean s { s with phase := n } := fun n => Clean.same rfl rfl
+  have hcom := hd.1
+  rcases phase_cases s.phase with h | h | h | h | h | h | h | h | h | h | h | h | h | h | h | h | h | h
+  · rw [pc0 c s h]; exact stay _
+  · rw [pc1 c s h]; exact Clean.via c (Clean.emit1 _ (filterPass_trace c _ s) rfl (by simp [filterPass, emit, liftF]))
+  · rw [pc2 c s h]; exact Clean.via c (Clean.same rfl rfl)
+  · rw [pc3 c s h]; exact Clean.via c (Clean.emit1 _ (filterPass_trace c _ s) rfl (by simp [filterPass, emit, liftF]))
+  · rw [pc4 c s h]
+    apply Clean.via
+    unfold chooseHost; simp only []
+    split
+    · exact Clean.same rfl rfl
+    · exact Clean.same rfl rfl
+    · split <;> exact Clean.same rfl rfl
+  · rw [pc5 c s h]; exact Clean.via c (Clean.emit1 _ (filterPass_trace c _ s) rfl (by simp [filterPass, emit, liftF]))
+  · rw [pc6 c s h]
+    have hup : s.upReq = true := (PhaseData_56_of c _ _ (Or.inr h) hd).2
+    rw [if_pos hup]
+    apply Clean.via
+    unfold sendUpstream
+    split
+    · exact same
+    · split
+      · exact Clean.emit1 (.up true) rfl rfl rfl
+      · exact Clean.emit1 (.up false) rfl rfl rfl
+  · rw [pc7 c s h]; split
+    · exact Clean.via c same
+    · exact stay _
+  · rw [pc8 c s h]; split
+    · exact Clean.via c same
+    · exact stay _
+  · rw [pc9 c s h]; split
+    · exact Clean.via c (Clean.same rfl rfl)
+    · exact stay _
+  · exact (PhaseData_10_of c _ (by rw [← h]; exact hd)).elim
+  · rw [pc11 c s h]
+    obtain ⟨hf, _⟩ := PhaseData_11_of c _ (by rw [← h]; exact hd)
+    have hresp : s.resp = none := hf.resp
+    have hupr : s.upRespReceived = false := hf.upResp
+    have hrst : s.upstreamReset = false := hf.upstreamReset
+    have hcl : s.cleaned = false := hcom.cleaned
+    have hpd : s.procDone = false := hcom.procDone
+    have hdel : Clean s (deliver c s) ∧ ((deliver c s).halted = true → s.halted = true) := by
+      unfold deliver
+      split
+      · rw [if_neg (by rw [hpd, hrst, hupr]; simp)]; exact ⟨Clean.same rfl rfl, fun h => h⟩
+      · exact ⟨Clean.same rfl rfl, fun h => h⟩
+      · rw [if_neg (by rw [hresp, hcl, hupr]; simp)]; exact ⟨Clean.same rfl rfl, fun h => h⟩
+    split
+    · exact hdel.1
+    · exact Clean.via c hdel.1
+  · rw [pc12 c s h]
+    exact Clean.via c (Clean.emit1 (.spass s.scursor (runSend c.send s.toFState).2) (by simp [sendPass, emit, liftF]) rfl
+      (by simp [sendPass, emit, liftF]))
+  · rw [pc13 c s h]; split
+    · apply Clean.via
+      unfold respHeaders; split
+      · exact same
+      · split
+        · exact Clean.emit1 _ rfl rfl rfl
+        · exact Clean.emit1 _ rfl rfl rfl
+    · exact stay _
+  · rw [pc14 c s h]; split
+    · split
+      · apply Clean.via
+        unfold respData; split
+        · exact same
+        · split
+          · exact Clean.emit1 _ rfl rfl rfl
+          · exact Clean.emit1 _ rfl rfl rfl
+      · exact stay _
+    · exact stay _
+  · rw [pc15 c s h]; split
+    · split
+      · apply Clean.via
+        unfold respTrailers; split
+        · exact same
+        · exact Clean.emit1 _ rfl rfl rfl
+      · exact stay _
+    · exact stay _
+  · exact (PhaseData_ge16_of c _ _ (by omega) hd).elim
+  · exact (PhaseData_ge16_of c _ _ (by omega) hd).elim
+
+structure Uinv (s : St) : Prop where
+  nounm : ∀ e ∈ s.trace, isUnm e = false
+  noblock : s.blocked = false
+
+theorem step_Uinv (c : Cfg) (s : St) (hg : Ginv c s) (hu : Uinv s) : Uinv (step c s) := by
+  unfold step
+  split
+  · exact hu
+  · rename_i hnh
+    have hnh : s.halted = false := by simpa using hnh
+    split
+    · exact ⟨by rw [ret_trace]; exact hu.nounm, by
+        have : (ret s End).blocked = s.blocked := by unfold ret; split <;> (try split) <;> rfl
+        rw [this]; exact hu.noblock⟩
+    · obtain ⟨hd, _⟩ := hg.live hnh
+      obtain ⟨⟨evs, ht, hev⟩, hb⟩ := phaseCase_clean c { s with inner := s.inner + 1 } hd
+      refine ⟨?_, by rw [hb]; exact hu.noblock⟩
+      intro e he
+      rw [ht] at he
+      rcases List.mem_append.mp he with h | h
+      · exact hu.nounm e h
+      · exact hev e h
+
+theorem run_GU (c : Cfg) (n : Nat) (s : St) (hg : Ginv c s) (hu : Uinv s) : Uinv (run c n s) := by
+  induction n generalizing s with
+  | zero => exact hu
+  | succ n ih => exact ih _ (step_Ginv c s hg) (step_Uinv c s hg hu)
+
+theorem model_closed (c : Cfg) (n : Nat) :
+    (∀ e ∈ (run c n init).trace, ∀ p, e ≠ Ev.unmodelled p) ∧ (run c n init).blocked = false := by
+  obtain ⟨h1, h2⟩ := run_GU c n init (init_Ginv c) ⟨(fun e he => by cases he), rfl⟩
+  refine ⟨fun e he p hp => ?_, h2⟩
+  subst hp
+  have := h1 _ he
+  cases this
+
 end MosnVerif.Model.FilterSpec
